@@ -265,10 +265,10 @@ func CmdCheck(args []string) int {
 				continue
 			}
 			if len(r.Unsup) > 0 {
-				undecided = append(undecided, o.Name)
-				fmt.Printf("UNDECIDED property=%s obligation=%s reason=function-partly-outside-modelled-subset (%s)\n", prop, o.Name, r.Unsup[0])
-				total--
-				continue
+				// The function uses something the verifier has no model or contract for (listed below). The
+				// obligation was discharged on the reference tree and no longer is: reported as a violation
+				// (a failing input is still searched for), with the unmodelled construct named.
+				fmt.Printf("   note: %s uses constructs without a model or contract: %s\n", sk, strings.Join(r.Unsup, "; "))
 			}
 			violations = append(violations, o.Name)
 			rr := r.Refute(e, oi, smtDir)
